@@ -127,3 +127,7 @@ fn update_statistics(route_ctx: &mut RouteContext, transport: &(dyn TransportCos
     state.set_total_distance(total_dist);
     state.set_total_duration(total_dur);
 }
+
+#[cfg(kani)]
+#[path = "/verif/kani/vrp-core/schedule_update_proofs.rs"]
+mod verif_kani_proofs;
